@@ -159,7 +159,8 @@ static void dense_norm_case(vf_rng *r)
 {
     size_t const chunk = (size_t)4 << 20, reps = 512, nper = chunk / sizeof(a_real), n = nper * reps;
     int const fd = (int)syscall(SYS_memfd_create, "vf-dense", 0);
-    double const u = vf_uniform(r, 1.5, 8), w = sqrt((double)A_REAL_MAX / (double)n) * u;
+    static int pass; /* two passes per case: just above the point where n w^2 leaves the range (factor 1.001 .. 1.2), and well above it (1.2 .. 8) */
+    double const u = (pass++ & 1) ? vf_uniform(r, 1.2, 8) : 1 + vf_logu(r, -3, -0.7), w = sqrt((double)A_REAL_MAX / (double)n) * u;
     unsigned char *win;
     a_real *f, got, got2;
     double cw = 0, ch = 0, cw2 = 0, ch2 = 0, want, want2;
@@ -198,7 +199,7 @@ static void vf_case(uint64_t c, vf_rng *r)
     if (sizeof(a_real) != 8) { VF_COUNT("giant-configuration-is-for-the-double-build"); return; }
     if (c < (uint64_t)NSTRIDE) { strided_case((int)c, r); return; }
     c -= NSTRIDE;
-    if (c == 0) { dense_norm_case(r); return; }
+    if (c == 0) { dense_norm_case(r); dense_norm_case(r); return; }
     c -= 1;
     if (!vf.tier) { c = (c * 3 + vf.seed) % NROUT; } /* quick: two routines chosen by the seed */
     count_case((int)c, r);
